@@ -51,6 +51,7 @@ fn main() {
             let f: fn(&[u8]) -> String = match args[2].as_str() {
                 "c11_decode" => checks::c11::child_decode,
                 "c10_compile" => checks::c10::child_compile,
+                "c18_encode" => checks::c18::child_encode,
                 _ => usage(),
             };
             runner::child_main(&args[3], stack_kb, f);
